@@ -1,5 +1,5 @@
 """C17 — backward scales to deep graphs (exactly-once, linear work, no recursion limit) and untracked computations keep no history."""
-import gc, json, os, sys, weakref
+import gc, os, json, os, sys, weakref
 import numpy as np
 from harness import gen, monitors
 
@@ -38,6 +38,11 @@ def gen_cases(tier, seed):
         cases.append({"kind": "ladder", "depth": depth, "seed": 0})
     for n in ((1500, 3000), (4000, 8000)) + (((20000, 40000),) if tier == "thorough" else ()):
         cases.append({"kind": "linear-cost", "n": n[0], "n2": n[1], "seed": int(rng.integers(2 ** 31))})
+    for n in ((600, 1200), (1500, 3000)):
+        cases.append({"kind": "linear-cost", "n": n[0], "n2": n[1], "shape": "retained-second-backward", "seed": int(rng.integers(2 ** 31))})
+    # CPU time of backward at n and 4n ops (C-level super-linear work - degenerate hashing, list.insert(0, .) - is invisible to call and line
+    # counts): moderate sizes in the quick tier, reported only when three independent measurements all exceed twice the linear ratio
+    cases.append({"kind": "cpu-cost", "n": 8000, "n2": 32000, "reps": 3, "factor": 2.0, "seed": int(rng.integers(2 ** 31))})
     for n in ((400, 800), (1500, 3000)):
         for wop in ("stack", "concat", "sum-of-terms"):
             cases.append({"kind": "linear-cost", "n": n[0], "n2": n[1], "shape": "wide:" + wop, "seed": int(rng.integers(2 ** 31))})
@@ -92,6 +97,18 @@ def run_case(ns, mon, c):
         y, factor = build_chain(ns, x, c["n"], rng)
         out = y.sum()
         inv0 = mon.counters.get("grad_fn_invocations", 0)
+        if c["seed"] % 2:
+            # a first call that is refused (seed of the wrong shape) leaves the graph as it was: the call that follows visits every recorded op once
+            try:
+                out.backward(T(np.ones((2, 2))))
+            except RecursionError:
+                pass
+            except Exception:
+                counters["refused_backward_first"] = 1
+            if x._grad is not None:
+                x._grad = None
+            mon.drain()
+            inv0 = mon.counters.get("grad_fn_invocations", 0)
         try:
             out.backward()
         except RecursionError as e:
@@ -217,6 +234,28 @@ def run_case(ns, mon, c):
                 y, _ = build_chain(ns, x, n, gen.rng_for(c["seed"], "lin"))
             out = y.sum()
             cnt = [0]
+            if c.get("shape") == "retained-second-backward":
+                # every intermediate keeps its gradient (retain_grads) and the graph is differentiated a second time: the work of that second sweep
+                # - counted in library source lines executed, so that Python-level scans show - is linear in the graph as well
+                libroot = os.path.join(ns.root, "synapgrad")
+                with sg.retain_grads():
+                    getattr(mon, "orig_backward", ns.Tensor.backward)(out)
+
+                    def tracer(frame, event, arg):
+                        if not frame.f_code.co_filename.startswith(libroot):
+                            return None
+                        if event == "line":
+                            cnt[0] += 1
+                        return tracer
+                    sys.settrace(tracer)
+                    try:
+                        getattr(mon, "orig_backward", ns.Tensor.backward)(out)
+                    finally:
+                        sys.settrace(None)
+                counts.append(cnt[0])
+                del y, out, x
+                gc.collect()
+                continue
 
             def prof(frame, event, arg):
                 if event == "call":
@@ -455,14 +494,15 @@ def run_case(ns, mon, c):
             finally:
                 gc.enable()
         ratios = []
-        for rep in range(2):
+        nrep, factor = int(c.get("reps", 2)), float(c.get("factor", 1.75))
+        for rep in range(nrep):
             t1, t2 = measure(c["n"]), measure(c["n2"])
             ratios.append(t2 / max(t1, 1e-6))
-            if ratios[-1] <= 1.75 * (c["n2"] / c["n"]):
+            if ratios[-1] <= factor * (c["n2"] / c["n"]):
                 break
         counters["cpu_cost_measurements"] = len(ratios)
         note = f"cpu time ratio backward({c['n2']})/backward({c['n']}) = {[round(r, 2) for r in ratios]} (linear: {c['n2'] / c['n']:.1f})"
-        if len(ratios) == 2 and min(ratios) > 1.75 * (c["n2"] / c["n"]):
+        if len(ratios) == nrep and min(ratios) > factor * (c["n2"] / c["n"]):
             viol.append(V("cost:super-linear:cpu-time", "CPU time of backward grows faster than linearly with the graph size (reproduced twice): " + note))
         mon.drain()
         return {"key": ("cpu-cost", c["n"]), "viol": viol, "counters": counters, "note": note, "cover": {"scenarios": ["cpu-cost"]}}
